@@ -70,7 +70,7 @@ def cases(tier, seed, phase):
         rng = rng_for(seed, 'c17bs', j)
         lines = []
         for _ in range(rng.randint(1, 4)):
-            code = rng.choice([b'250', b'250', b'250', b'550', b'2x0', b'', b'25', b'2500', b'000', b'999'])
+            code = rng.choice([b'250', b'250', b'250', b'550', b'2x0', b'', b'25', b'2500', b'000', b'999', b'600', b'599', b'100', b'099'])      # (the edges of 1xx-5xx)
             sep = rng.choice([b'-', b'-', b' ', b' ', b'\t', b'', b'x'])
             text = rng.choice([b'ok', b'', b'\xc3\xa9', b'\xff', b'\xc0\x80', b'\xed\xa0\x80', b'a\rb', b'250-x', b' x'])
             eol = rng.choice([b'\r\n', b'\r\n', b'\n', b'\r\r\n', b''])
